@@ -95,7 +95,10 @@ def gen_one(rng, tier, scale=False):
         # equal, also across classes, or that define __eq__ without __hash__
         eq = None
         if base is None and rng.random() < 0.3:
-            eq = rng.choice(['equal', 'equal', 'cross', 'unhashable'])
+            eq = rng.choice(['equal', 'equal', 'cross', 'unhashable',
+                             # handlers that evaluate false (an empty
+                             # container, a zero counter)
+                             'falsy', 'empty'])
         classes.append({'base': base, 'decorated': decorated, 'names': names,
                         'maps': maps, 'methods': sorted(methods), 'eq': eq,
                         'base2': base2})
@@ -236,7 +239,13 @@ def run_case(case):
         base = object if spec['base'] is None else classes[spec['base']]
         ns = {meth: make_method(ci, meth) for meth in spec['methods']}
         eq = spec.get('eq')
-        if eq:
+        if eq == 'falsy':
+            ns['__bool__'] = lambda self: False
+            flags.add('eq-falsy')
+        elif eq == 'empty':
+            ns['__len__'] = lambda self: 0
+            flags.add('eq-falsy')
+        elif eq:
             ns['_eqkey'] = 'shared' if eq == 'cross' else f'k{ci}'
             ns['__eq__'] = _value_eq
             ns['__hash__'] = None if eq == 'unhashable' else _value_hash
